@@ -205,11 +205,13 @@ def finish(pid: str, tier: str, seed: int, mod: Any, res: dict, wall: float) -> 
 
 
 def _match_known(known: list[dict], sig: str) -> dict | None:
-    import fnmatch
+    import re
 
     for k in known:
         for pat in k['signatures']:
-            if fnmatch.fnmatchcase(sig, pat):
+            # only '*' is a wildcard; everything else (brackets included) is literal
+            rx = '.*'.join(re.escape(part) for part in pat.split('*'))
+            if re.fullmatch(rx, sig):
                 return k
     return None
 
